@@ -41,6 +41,7 @@ type Thread struct {
 	npts    uint32 // points since the last op boundary
 	what    string // description of pending point (debug)
 	waitObj uintptr
+	killed     bool
 	wasEnabled bool  // enabled at the previous scheduling step
 	stamp      int64 // step at which the thread last became enabled
 }
@@ -307,6 +308,24 @@ func SetKey(f func() uint64) {
 	}
 }
 
+// KillProc makes every thread of a "process" stop for good, as after SIGKILL: the threads are never scheduled again
+// (they are unwound when the execution is torn down). The caller must belong to another process.
+func KillProc(proc int) int {
+	x := X
+	if x == nil {
+		return 0
+	}
+	n := 0
+	for _, t := range x.threads {
+		if t.Proc == proc && !t.done && t != x.cur {
+			t.done = true
+			t.killed = true
+			n++
+		}
+	}
+	return n
+}
+
 // Quiet switches the setup phase on/off: while on, scheduling takes the default choice and records no alternatives.
 func Quiet(on bool) {
 	if X != nil {
@@ -529,6 +548,9 @@ func (x *Exec) schedule(me *Thread) {
 		x.nsteps++
 		if x.opts.StepLimit > 0 && x.nsteps > x.opts.StepLimit {
 			x.Horizon = true
+			if x.opts.FailOnHorizon {
+				x.setFail(&Failure{Kind: "horizon", Sig: "horizon", Msg: fmt.Sprintf("execution still running after %d scheduling steps (virtual time %d ms): some call keeps spinning or waiting", x.opts.StepLimit, (x.clock-epoch0)/1e6)})
+			}
 			x.beginAbort()
 			if me != nil {
 				runtime.Goexit()
@@ -752,6 +774,7 @@ type Options struct {
 	MaxFail    int   // stop after this many failures with distinct signatures (0 = 1)
 	RacyTimers bool
 	KeepGoing  func(f *Failure) bool // return true to continue exploring after this failure
+	FailOnHorizon bool               // an execution that exceeds StepLimit is a failure (liveness checks)
 	ShardI     int                   // this explorer expands only the level-1 subtrees with index % ShardN == ShardI
 	ShardN     int                   // (0 or 1 = no sharding); every shard runs the root execution
 }
